@@ -118,4 +118,11 @@ end
 /-- the page: the root element's box always forms a stacking context -/
 def specOrder (root : Box) : List PEv := specReal root
 
+/-- the page (CSS Paged Media 3 / CSS 2.1 14.2): the page box's background is painted first, the canvas background
+    (the root element's or the propagated <body> background) is painted over it, then the root stacking context -/
+def specPage (pageBg canvasBg : Option Nat) (root : Box) : List PEv :=
+  pageBg.toList.map (fun p => (p, Layer.background))
+  ++ canvasBg.toList.map (fun c => (c, Layer.background))
+  ++ specOrder root
+
 end WR.C16
